@@ -538,7 +538,7 @@ func Run(w *sim.World, opt Options) *Outcome {
 	// server favoured, clients wait; once a new leader exists the network heals and the next
 	// request is usually a Get of that key (NextReq): acknowledged writes must survive
 	deposing, ackStep, deposed := false, -1, 0
-	calm := !flap && !hunt && w.Choose(sim.KCfg, 2) == 1
+	calm := !flap && !hunt && w.Choose(sim.KCfg, 4) == 1
 	if calm && w.Choose(sim.KCfg, 3) != 0 {
 		patient = true // two thirds of the calm runs depose leaders after acknowledged Puts
 	}
@@ -552,7 +552,7 @@ func Run(w *sim.World, opt Options) *Outcome {
 		max += 1500
 		out.Probes["depose_mode"]++
 	}
-	// calm mode (half of the runs without flapping or hunting): timers behave as in a healthy
+	// calm mode (a quarter of the runs without flapping or hunting): timers behave as in a healthy
 	// deployment (election and client time-outs are rare unless there is no leader), so that
 	// requests complete in a few dozen steps, histories hold many acknowledged operations and
 	// hardly any request is re-sent; leader changes come from the depose adversary, crashes
@@ -562,7 +562,7 @@ func Run(w *sim.World, opt Options) *Outcome {
 		baseTimeoutP0 = calmTimeout
 		r.TimeoutP0 = calmTimeout
 		r.CoinP0 = 0.99
-		max *= 3
+		max *= 2
 		out.Probes["calm_mode"]++
 	}
 	startFinalReads := func() {
